@@ -9,6 +9,7 @@ From ReqV Require Import Proofs.StreamWireTrailerProofs.
 From ReqV Require Import Model.TlsConn Proofs.TlsConnProofs.
 From ReqV Require Import Model.RespRead Model.DupLength Proofs.RespReadProofs.
 From ReqV Require Import Model.Download Proofs.DownloadProofs.
+From ReqV Require Import Proofs.ChunkFooterProofs.
 Local Open Scope nat_scope.
 
 (* HTTP/1.1, Content-Length and chunked framing (every body, every chunk partition with any
@@ -40,6 +41,25 @@ Theorem C03_h1_overlong_not_spliced : forall hdr fr W body tb extra cf,
                && cf_wrote_request cf && cf_put_idle_ok cf).
 Proof. exact h1_overlong_not_spliced_thm. Qed.
 Print Assumptions C03_h1_overlong_not_spliced.
+
+(* over-long / malformed chunk: any well-formed chunks, then a chunk whose declared data is
+   followed by two bytes that are not CR LF (surplus bytes in front of its CRLF, or the CRLF
+   replaced), then anything at all: the body ends in "malformed chunked encoding" after exactly
+   the declared bytes; nothing behind them is delivered.  The reader is a function of the
+   bytes received, so this holds for every segmentation of those bytes. *)
+Theorem C03_overlong_chunk_rejected : forall cs c a b rest,
+  Forall wf_chunk cs -> wf_chunk c -> (beqb a CR && beqb b LF) = false ->
+  read_chunked (render_chunks cs ++ size_line (c_size c) (c_ext c) ++ c_data c ++ a :: b :: rest) =
+  mkRd (chunks_data cs ++ c_data c) MalformedChunk rest false [].
+Proof. exact overlong_chunk_rejected_thm. Qed.
+Print Assumptions C03_overlong_chunk_rejected.
+
+Theorem C03_overlong_chunk_never_clean : forall cs c a b rest,
+  Forall wf_chunk cs -> wf_chunk c -> (beqb a CR && beqb b LF) = false ->
+  let r := read_chunked (render_chunks cs ++ size_line (c_size c) (c_ext c) ++ c_data c ++ a :: b :: rest) in
+  rd_err r = MalformedChunk /\ rd_data r = chunks_data cs ++ c_data c /\ is_clean (rd_err r) = false.
+Proof. exact overlong_chunk_data_thm. Qed.
+Print Assumptions C03_overlong_chunk_never_clean.
 
 (* after any failure (error, connection end seen, bytes left over) the connection is not reused *)
 Theorem C03_broken_conn_not_reused : forall cf r,
